@@ -816,6 +816,9 @@ func ruleR10() *Rule {
 						c.ok(key, c.fpos(t.reset), fq+" is exempt: "+resetExempt[fq])
 					case encodeScratchArray(p, t.name, st, i):
 						c.ok(key, c.fpos(t.reset), fq+" is a fixed-size byte array used as encoding scratch: every use slices it, and what is read from it was just put there by a binary.Put* call")
+					case func() bool { ok, _ := remadeBeforeAnyRead(p, t.name, i); return ok }():
+						_, how := remadeBeforeAnyRead(p, t.name, i)
+						c.ok(key, c.fpos(t.reset), fq+" is not re-initialised by Reset but is made afresh before anything reads it: "+how)
 					case func() bool { ok, _ := cleanAtUse(p, t.name, st, i); return ok }():
 						_, how := cleanAtUse(p, t.name, st, i)
 						c.ok(key, c.fpos(t.reset), fq+" is not re-initialised by Reset but is clean at use: "+how)
@@ -1286,4 +1289,97 @@ func encodeScratchArray(p *Program, sn string, st *types.Struct, fi int) bool {
 		}
 	}
 	return true
+}
+
+// remadeBeforeAnyRead: field idx of the pooled type is given a fresh value (a new map or slice, nil) at the very
+// start of one method G of the type — in its entry block, before any call — and everything that touches the
+// field runs inside G after that: G itself, its closures, and unexported routines all of whose call sites are in
+// G or its closures (`realloc()` makes `ThesaurusMap` afresh; only `getOrDefineThesaurus`, which only `realloc`
+// calls, reads it). What an earlier build left in the field is then never seen.
+func remadeBeforeAnyRead(p *Program, typeName string, idx int) (bool, string) {
+	isRecvField := func(fa *ssa.FieldAddr) bool {
+		return fa.Field == idx && isNamed(derefType(fa.X.Type()), zapPkgPath, typeName)
+	}
+	var g *ssa.Function
+	var store *ssa.Store
+	for _, fn := range p.ZapFuncs {
+		if fn.Parent() != nil || fn.Signature.Recv() == nil || len(fn.Blocks) == 0 || !isNamed(derefType(fn.Signature.Recv().Type()), zapPkgPath, typeName) {
+			continue
+		}
+		for _, in := range fn.Blocks[0].Instrs {
+			if _, isCall := in.(ssa.CallInstruction); isCall {
+				break
+			}
+			st, ok := in.(*ssa.Store)
+			if !ok {
+				continue
+			}
+			fa, ok := st.Addr.(*ssa.FieldAddr)
+			if !ok || !isRecvField(fa) || root(fa.X) != ssa.Value(fn.Params[0]) {
+				continue
+			}
+			switch st.Val.(type) {
+			case *ssa.MakeMap, *ssa.MakeSlice:
+			default:
+				if !isNilConst(st.Val) {
+					continue
+				}
+			}
+			if g != nil && g != fn {
+				return false, "" // two such routines: which one runs first is not known here
+			}
+			g, store = fn, st
+		}
+	}
+	if g == nil {
+		return false, ""
+	}
+	before := func(a, b ssa.Instruction) bool { // a strictly before b, both in g's entry block
+		for _, in := range g.Blocks[0].Instrs {
+			if in == a {
+				return true
+			}
+			if in == b {
+				return false
+			}
+		}
+		return false
+	}
+	insideG := func(fn *ssa.Function) bool { return rootParent(fn) == g }
+	ok := true
+	for _, fn := range p.ZapFuncs {
+		eachInstr(fn, func(b *ssa.BasicBlock, in ssa.Instruction) {
+			fa, isFA := in.(*ssa.FieldAddr)
+			if !isFA || !isRecvField(fa) || ssa.Value(fa) == store.Addr {
+				return
+			}
+			switch {
+			case fn == g:
+				if b == g.Blocks[0] && before(fa, store) {
+					ok = false
+				}
+			case insideG(fn):
+				// a closure of g: made after the store (the store precedes every call and the entry block's end)
+			default:
+				hr := rootParent(fn)
+				if hr.Object() == nil || hr.Object().Exported() {
+					ok = false
+					return
+				}
+				sites := p.callersOf(hr)
+				if len(sites) == 0 {
+					ok = false
+				}
+				for _, cs := range sites {
+					if !insideG(cs.Parent()) {
+						ok = false
+					}
+				}
+			}
+		})
+	}
+	if !ok {
+		return false, ""
+	}
+	return true, fmt.Sprintf("%s assigns it a fresh value before anything else, and only %s and the routines it alone calls touch it", funcShortName(g), funcShortName(g))
 }
